@@ -111,9 +111,9 @@ def apply_mod(meta_molecule, modifications):
         mod_interactions = molecule.force_field.modifications[desired_mod].interactions
         for i in mod_interactions:
             for j in molecule.force_field.modifications[desired_mod].interactions[i]:
+                # all atoms of the interaction, not only the first two
                 molecule.add_interaction(i,
-                                         (anum_dict[j.atoms[0]]-1,
-                                          anum_dict[j.atoms[1]]-1),
+                                         tuple(anum_dict[atom]-1 for atom in j.atoms),
                                          j.parameters,
                                          meta=j.meta)
 
